@@ -82,6 +82,24 @@ def structured_family():
                         rules.append("%s: %s" % (chain[i], nxt if nxt else (end if end else "")))
                     out.append(("cyc%d_chain%d_%s_ctx%d" % (k, m, {"Te | ": "te", "": "e", "Te": "t"}[end], ctx),
                                 G.G("; ".join(rules))))
+    # lists (nullable / non-empty, left / right recursive, two-level like the sugar helpers)
+    # in a context: after a reducible prefix, before a suffix
+    lists = {"lrec_eps": "L: L Tc | ", "rrec_eps": "L: Tc L | ", "lrec": "L: L Tc | Tc", "rrec": "L: Tc L | Tc",
+             "two_level": "L: M | ; M: M Tc | Tc", "lrec_sep_eps": "L: L Td Tc | Tc | "}
+    prefixes = {"nt": "A", "t": "Ta", "nt_nullable": "B"}
+    suffixes = {"t": "Tb", "none": "", "nullable": "E"}
+    for ln, lrule in lists.items():
+        for pn, pre in prefixes.items():
+            for sn, suf in suffixes.items():
+                rules = ["S: %s L %s" % (pre, suf), lrule, "A: Ta", "B: Ta | ", "E: Te | "]
+                keep = [rules[0], lrule]
+                if pre == "A":
+                    keep.append(rules[2])
+                if pre == "B":
+                    keep.append(rules[3])
+                if suf == "E":
+                    keep.append(rules[4])
+                out.append(("list_%s_pre_%s_suf_%s" % (ln, pn, sn), G.G("; ".join(keep))))
     return out
 
 
@@ -1601,6 +1619,14 @@ AST_SHAPES = [
     ("rec_ref", "A: B;\nB: Lp A Rp | Num;\nterminals\nLp: '(';\nRp: ')';\nNum: /\\d+/;\n", ["1", "( ( 2 ) )"], None),
     ("vec_left", "@vec\nL: L Num | Num;\nterminals\n" + T_NUMNAME, ["1", "1 2 3 4"], None),
     ("vec_right", "@vec\nL: Num L | Num;\nterminals\n" + T_NUMNAME, ["1", "1 2 3 4"], None),
+    ("sexp_right", "Program: Sexp;\nSexp: Name | Lp List Rp;\n@vec\nList: Sexp List | Sexp;\nterminals\n" + T_NUMNAME
+     + "Lp: '(';\nRp: ')';\n", ["( a b c )", "( a ( b c ) d )", "x"], None),
+    ("sexp_left", "Program: Sexp;\nSexp: Name | Lp List Rp;\n@vec\nList: List Sexp | Sexp;\nterminals\n" + T_NUMNAME
+     + "Lp: '(';\nRp: ')';\n", ["( a b c )", "( a ( b c ) d )"], None),
+    ("sexp_sugar", "Program: Sexp;\nSexp: Name | Lp Sexp* Rp;\nterminals\n" + T_NUMNAME
+     + "Lp: '(';\nRp: ')';\n", ["( a b c )", "( a ( b c ) ( ) d )"], None),
+    ("sexp_right_eps", "Program: Sexp;\nSexp: Name | Lp List Rp;\n@vec\nList: Sexp List | EMPTY;\nterminals\n" + T_NUMNAME
+     + "Lp: '(';\nRp: ')';\n", ["( a b c )", "( )", "( a ( ) b )"], None),
     ("vec_left_sep", "@vec\nL: L Comma Num | Num;\nterminals\nNum: /\\d+/;\nComma: ',';\n", ["1", "1, 2, 3"], None),
     ("vec_empty", "S: Name L;\n@vec\nL: L Num | Num | EMPTY;\nterminals\n" + T_NUMNAME, ["x", "x 1 2 3"], None),
     ("vec_empty_strs", "S: Ta L;\n@vec\nL: L Tb | Tb | EMPTY;\nterminals\nTa: /a/;\nTb: /b/;\n", ["a"], None),
